@@ -46,6 +46,7 @@ type wkReply struct {
 	headers       map[string]string
 	extraHeaders  [][2]string // added after headers, so that a header can appear on several lines
 	err           bool
+	block         bool // no answer until the request's context is done
 }
 
 type scriptedTransport struct {
@@ -59,6 +60,10 @@ func (s *scriptedTransport) RoundTrip(r *http.Request) (*http.Response, error) {
 	s.calls = append(s.calls, r.URL.Host+r.URL.Path)
 	rep, ok := s.wk[r.URL.Host]
 	s.mu.Unlock()
+	if ok && rep.block {
+		<-r.Context().Done()
+		return nil, r.Context().Err()
+	}
 	if !ok || rep.err || r.URL.Path != "/.well-known/matrix/server" {
 		return nil, fmt.Errorf("connection refused (scripted)")
 	}
@@ -999,6 +1004,74 @@ func c16ClientDelegationHistory(c *mon.Ctx, st *scriptedTransport, ds *dnsScript
 			}
 		})
 	}
+	// a fault in the middle: the first request for c.hist.test is given up (its context ends) while the well-known
+	// lookup is still unanswered; the next request for that name, made in good health, goes where the name resolves to
+	c.Case("client:delegation-history:request-given-up-during-the-well-known-lookup", nil, func() {
+		c.Nontrivial("client-delegation|cancelled")
+		ds.mu.Lock()
+		ds.a["c.hist.test"] = []string{"127.0.0.1"}
+		ds.mu.Unlock()
+		st.mu.Lock()
+		st.wk["c.hist.test"] = wkReply{block: true}
+		st.mu.Unlock()
+		cl := fclient.NewClient(fclient.WithSkipVerify(true), fclient.WithWellKnownSRVLookups(true), fclient.WithTimeout(5*time.Second))
+		ctx, cancel := context.WithTimeout(context.Background(), 300*time.Millisecond)
+		_, err := cl.GetVersion(ctx, "c.hist.test")
+		cancel()
+		if err == nil {
+			c.Failf("client-delegation-history:request-answered-although-given-up", "a request whose well-known lookup never answered was answered")
+			return
+		}
+		st.mu.Lock()
+		st.wk["c.hist.test"] = wkReply{status: 200, body: []byte(`{"m.server":"` + addrC + `"}`), contentLength: true}
+		st.mu.Unlock()
+		mu.Lock()
+		hits = nil
+		mu.Unlock()
+		ctx2, cancel2 := context.WithTimeout(context.Background(), 5*time.Second)
+		_, err = cl.GetVersion(ctx2, "c.hist.test")
+		cancel2()
+		mu.Lock()
+		got := append([]hit{}, hits...)
+		mu.Unlock()
+		c.Count("client_delegation_history_requests")
+		if err != nil || len(got) != 1 || got[0] != (hit{"C", addrC}) {
+			c.Failf("client-delegation-history:wrong-target:after-a-request-given-up-during-resolution", "after a request for c.hist.test was given up during its well-known lookup, the next request for it gave err=%v and reached %v; the name resolves to server C with Host %q", err, got, addrC)
+		}
+	})
+	// a request object of the caller's, sent twice: it is the caller's, the second sending finds it as the first did
+	c.Case("client:request-object-sent-twice", nil, func() {
+		c.Nontrivial("client-delegation|request-reused")
+		cl := fclient.NewClient(fclient.WithSkipVerify(true), fclient.WithWellKnownSRVLookups(true), fclient.WithTimeout(5*time.Second))
+		req, err := http.NewRequest("GET", "matrix://a.hist.test/_matrix/federation/v1/version", nil)
+		if err != nil {
+			return
+		}
+		urlBefore := req.URL.String()
+		for round := 0; round < 2; round++ {
+			mu.Lock()
+			hits = nil
+			mu.Unlock()
+			ctx, cancel := context.WithTimeout(context.Background(), 5*time.Second)
+			resp, err := cl.DoHTTPRequest(ctx, req)
+			if resp != nil {
+				resp.Body.Close()
+			}
+			cancel()
+			mu.Lock()
+			got := append([]hit{}, hits...)
+			mu.Unlock()
+			c.Count("client_delegation_history_requests")
+			if u := req.URL.String(); u != urlBefore {
+				c.Failf("client:callers-request-rewritten", "DoHTTPRequest changed the URL of the request it was given from %q to %q", urlBefore, u)
+				return
+			}
+			if err != nil || len(got) != 1 || got[0] != want["a.hist.test"] {
+				c.Failf("client-delegation-history:wrong-target:request-object-sent-twice", "sending %d of one request object for a.hist.test gave err=%v and reached %v; expected server B with Host b.hist.test", round+1, err, got)
+				return
+			}
+		}
+	})
 	c.Floor("client_delegation_history_requests", 10)
 }
 
@@ -1114,6 +1187,59 @@ func c16ClientSequences(c *mon.Ctx) {
 				}
 				if got[0].sni != "localhost" {
 					c.Failf("client-lookups-off:wrong-tls-server-name", "request for %s asked for the TLS server name %q, the host is localhost", name, got[0].sni)
+				}
+			})
+		}
+	}
+	// the caller's slice of options is the caller's: a constructor given a part of it leaves the rest alone, and a
+	// client built from the whole slice afterwards has the lists the caller put there
+	if c.Shard == 0 {
+		c.Case("client:options-slice-shared-between-two-constructors", nil, func() {
+			c.Nontrivial("client-options-slice")
+			opts := make([]fclient.ClientOption, 0, 8)
+			opts = append(opts, fclient.WithSkipVerify(true), fclient.WithTimeout(5*time.Second), fclient.WithAllowDenyNetworks([]string{"0.0.0.0/0"}, []string{"127.0.0.0/8"}))
+			signer := gen.NewIdentity(c.RandShared("c16-signer"), "me.example", "ed25519:1")
+			_ = fclient.NewFederationClient([]*fclient.SigningIdentity{{ServerName: "me.example", KeyID: gmsl.KeyID(signer.KeyID), PrivateKey: signer.Priv}}, opts[:2]...)
+			cl := fclient.NewClient(opts...)
+			mu.Lock()
+			hits = nil
+			mu.Unlock()
+			ctx, cancel := context.WithTimeout(context.Background(), 5*time.Second)
+			_, err := cl.GetVersion(ctx, spec.ServerName(names[0]))
+			cancel()
+			mu.Lock()
+			got := append([]hit{}, hits...)
+			mu.Unlock()
+			c.Count("client_invalid_name_requests")
+			if len(got) > 0 {
+				c.Failf("policy:connection-to-denied-address:options-slice-overwritten-by-another-constructor", "a client built with a deny list for 127.0.0.0/8 (err=%v) connected to %s after NewFederationClient had been given the first two options of the same slice", err, names[0])
+			}
+		})
+	}
+	// LookupWellKnown is an entry point of its own: what is no server name is refused there too
+	if c.Shard == 0 {
+		for _, name := range []string{"evil@" + names[0], names[0] + "/x?", names[0] + "#", "user:pw@" + names[0]} {
+			if v, _, _ := ref.ServerName(name); v == ref.Valid {
+				panic("harness: " + name + " is a valid server name")
+			}
+			c.Case("wellknown:invalid-name", map[string]any{"name": name}, func() {
+				c.Nontrivial("wellknown-invalid|" + name[:len(name)-len(names[0])+1])
+				old := http.DefaultTransport
+				asked := []string{}
+				var amu sync.Mutex
+				http.DefaultTransport = c18Transport(func(q *http.Request) (*http.Response, error) {
+					amu.Lock()
+					asked = append(asked, q.URL.String())
+					amu.Unlock()
+					return &http.Response{StatusCode: 200, Status: "200", Header: http.Header{"Content-Type": []string{"application/json"}}, Body: io.NopCloser(strings.NewReader(`{"m.server":"delegated.example:443"}`)), Request: q, ProtoMajor: 1, ProtoMinor: 1, ContentLength: -1}, nil
+				})
+				ctx, cancel := context.WithTimeout(context.Background(), 5*time.Second)
+				res, err := fclient.LookupWellKnown(ctx, spec.ServerName(name))
+				cancel()
+				http.DefaultTransport = old
+				c.Count("client_invalid_name_requests")
+				if len(asked) > 0 || (err == nil && res != nil) {
+					c.Failf("wellknown:invalid-name-not-refused", "LookupWellKnown(%q) - no server name - asked %v and returned %v, %v", name, asked, res, err)
 				}
 			})
 		}
